@@ -385,7 +385,7 @@ func TestVerif_C04(t *testing.T) {
 	}
 	c01ProgSweep(r, 3, &idx, run)
 	if r.Thorough() {
-		c04ProgSweep4(r, &idx, run)
+		c01ProgSweep4(r, c04Sub, &idx, run)
 		c01SingleSweepQuickLattice(r, &idx, run)
 	}
 	for _, tb := range c04Tables() {
@@ -405,25 +405,5 @@ func TestVerif_C04(t *testing.T) {
 	}
 }
 
-// c04ProgSweep4: programs of exactly 4 instructions over the control-flow and
-// gas relevant half of the alphabet (thorough tier).
+// sub-alphabet of the 4-instruction programs (thorough tier): control flow and gas relevant instances
 var c04Sub = []int{0, 1, 2, 5, 6, 7, 8, 9, 10, 12, 17, 18, 20, 23}
-
-func c04ProgSweep4(r *vlib.Run, idx *uint64, f func(blob []byte, w *c01World, gas uint64, note string)) {
-	w := c01Worlds[2]
-	vlib.Sequences(len(c04Sub), 4, func(s []int) {
-		var code []byte
-		for _, i := range s {
-			code = append(code, c01ProgAlphabet[c04Sub[i]]...)
-		}
-		n := uint64(1) << uint(len(code))
-		for m := uint64(0); m < n; m++ {
-			*idx++
-			if !r.Mine(*idx) {
-				continue
-			}
-			r.Space(1)
-			f(c01ProgBlob(code, m), w, c01ProgGas, "prog4")
-		}
-	})
-}
